@@ -129,6 +129,7 @@ def judge_shards(module, cfg, shard_paths, *, jvms=4, workers=4, env=None, timeo
     """Run the judging spec once per shard (several JVMs at a time).  Returns
     (verdicts, states, transitions): verdicts are the JSON values printed."""
     verdicts, states, trans = [], 0, 0
+    t0 = time.time()
 
     def one(pth):
         e = dict(env or {})
@@ -143,6 +144,7 @@ def judge_shards(module, cfg, shard_paths, *, jvms=4, workers=4, env=None, timeo
             verdicts.extend(r.printed())
             states += r.distinct
             trans += r.generated
+    log(f"  judged {len(shard_paths)} shard(s) with {module} in {time.time() - t0:.1f}s")
     return verdicts, states, trans
 
 
@@ -170,9 +172,11 @@ def drive(modname, funcname, cases, extra=None, procs=NCPU, chunk=200):
         return []
     ctx = mp.get_context("spawn")
     out = []
+    t0 = time.time()
     with ctx.Pool(min(procs, len(chunks))) as pool:
         for part in pool.imap(_drive_chunk, chunks):
             out.extend(part)
+    log(f"  drove {len(cases)} case(s) through {modname}.{funcname} in {time.time() - t0:.1f}s")
     return out
 
 
